@@ -434,4 +434,225 @@ theorem passivateDep_chain (v v' : VT) (deps deps' : List Dep) (hd : NV deps)
     simp only [VT.setLemma, Dep.vc?, mkV, Option.toList]
     split <;> simp_all
 
+/-! ### the interrogative: `Dependent.processTypInt` keeps the invariant and the chain of verbs -/
+
+theorem vc_none_of_rel (d : Dep) (hd : DepOk d) (hr : d.rel ≠ .post) : d.vc? = none := by
+  unfold Dep.vc?
+  unfold DepOk at hd
+  cases hdt : d.t with
+  | v y => simp only [hdt] at hd; exact absurd hd.1 hr
+  | _ => rfl
+
+theorem depChain_cons (d : Dep) (l : List Dep) : depChain (d :: l) = d.vc?.toList ++ depChain l := by
+  cases h : d.vc? <;> simp [depChain, List.filterMap_cons, h]
+
+theorem depChain_eraseIdx (l : List Dep) (i : Nat) (h : ∀ d, l[i]? = some d → d.vc? = none) :
+    depChain (l.eraseIdx i) = depChain l := by
+  induction l generalizing i with
+  | nil => rfl
+  | cons a r ih =>
+    cases i with
+    | zero =>
+      have := h a rfl
+      simp [List.eraseIdx, depChain_cons, this]
+    | succ j =>
+      simp only [List.eraseIdx, depChain_cons]
+      rw [ih j (fun d hd => h d (by simpa using hd))]
+
+/-- erasing the first dependent that satisfies a test which no `post` dependent passes -/
+theorem erase_first_inv (p : Dep → Bool) (l : List Dep) (i : Nat) (hp : ∀ d, p d = true → d.rel ≠ .post) (hl : DI l)
+    (hi : firstIdx p l = some i) : DI (l.eraseIdx i) ∧ depChain (l.eraseIdx i) = depChain l := by
+  obtain ⟨e, he, hpe⟩ := firstIdx_getElem p l i hi
+  refine ⟨di_eraseIdx l i hl, depChain_eraseIdx l i ?_⟩
+  intro d hd
+  rw [he] at hd
+  cases hd
+  exact vc_none_of_rel e (hl e (List.mem_of_getElem? he)) (hp e hpe)
+
+theorem moveObjectDep_inv (int : Str) (v : VT) (deps : List Dep) (hd : DI deps) :
+    (moveObjectDep int v deps).1.neg2 = v.neg2 ∧ DI (moveObjectDep int v deps).2 ∧
+      chainOf (moveObjectDep int v deps) = chainOf (v, deps) := by
+  have hestce : ∀ q : Str, DI ({ rel := .det, t := .q q } :: deps) ∧
+      chainOf (v, ({ rel := .det, t := .q q } : Dep) :: deps) = chainOf (v, deps) := by
+    intro q
+    exact ⟨di_cons _ _ (depOk_nonV _ rfl) hd, by simp [chainOf, depChain_cons, Dep.vc?]⟩
+  have hinv : ∀ (p : ProT) (l : List Dep), DI l → depChain l = depChain deps →
+      DI ({ rel := .post, t := .pro p } :: l) ∧
+      chainOf ({ v with lier := true }, ({ rel := .post, t := .pro p } : Dep) :: l) = chainOf (v, deps) := by
+    intro p l hl hc
+    exact ⟨di_cons _ _ (depOk_nonV _ rfl) hl, by simp [chainOf, depChain_cons, Dep.vc?, hc]⟩
+  unfold moveObjectDep
+  cases hsi : firstIdx (fun (d : Dep) => decide (d.rel = .subj)) deps with
+  | none => exact ⟨rfl, hd, rfl⟩
+  | some si =>
+    have her := erase_first_inv _ deps si (by intro d h1 h2; simp at h1; rw [h1] at h2; cases h2) hd hsi
+    simp only []
+    cases hsd : deps[si]? with
+    | none => exact ⟨rfl, hd, rfl⟩
+    | some sd =>
+      simp only []
+      cases hst : sd.t with
+      | pro p =>
+        simp only []
+        split
+        · split
+          · exact ⟨rfl, (hestce _).1, (hestce _).2⟩
+          · exact ⟨rfl, (hinv _ deps hd rfl).1, (hinv _ deps hd rfl).2⟩
+        · split
+          · exact ⟨rfl, (hestce _).1, (hestce _).2⟩
+          · exact ⟨rfl, (hinv _ _ her.1 her.2).1, (hinv _ _ her.1 her.2).2⟩
+      | np a =>
+        simp only []
+        split
+        · exact ⟨rfl, (hestce _).1, (hestce _).2⟩
+        · exact ⟨rfl, (hinv _ deps hd rfl).1, (hinv _ deps hd rfl).2⟩
+      | _ => exact ⟨rfl, hd, rfl⟩
+
+theorem depChain_map (f : Dep → Dep) (l : List Dep) (h : ∀ d, (f d).vc? = d.vc?) : depChain (l.map f) = depChain l := by
+  induction l with
+  | nil => rfl
+  | cons a r ih => simp only [List.map_cons, depChain_cons, h a, ih]
+
+/-- `wos` / `was`: the verbs that share the `peng` of the root verb become 3rd person singular with it -/
+def wosMap (d : Dep) : Dep :=
+  match d.t with
+  | .v x => if x.shared then { d with t := .v { x with n := .s, pe := 3 } } else d
+  | _ => d
+
+theorem wosMap_vc (d : Dep) : (wosMap d).vc? = d.vc? := by
+  unfold wosMap
+  split
+  · rename_i x hx
+    split
+    · simp [Dep.vc?, hx]
+    · rfl
+  · rfl
+
+theorem wosMap_ok (d : Dep) (hd : DepOk d) : DepOk (wosMap d) := by
+  unfold wosMap
+  split
+  · rename_i x hx
+    split
+    · unfold DepOk at hd ⊢
+      simp only [hx] at hd
+      exact hd
+    · exact hd
+  · exact hd
+
+theorem moveObjectDep_inv' (int : Str) (v : VT) (deps l : List Dep) (hl : DI l) (hc : depChain l = depChain deps) :
+    (moveObjectDep int v l).1.neg2 = v.neg2 ∧ DI (moveObjectDep int v l).2 ∧
+      chainOf ((moveObjectDep int v l).1, (moveObjectDep int v l).2) = chainOf (v, deps) := by
+  obtain ⟨m1, m2, m3⟩ := moveObjectDep_inv int v l hl
+  refine ⟨m1, m2, ?_⟩
+  have : chainOf ((moveObjectDep int v l).1, (moveObjectDep int v l).2) = chainOf (v, l) := m3
+  rw [this]
+  simp [chainOf, hc]
+
+theorem processIntDepCore_inv (int : Str) (v : VT) (deps : List Dep) (r : VT × List Dep × Bool × Str × Option Str)
+    (hd : DI deps) (h : processIntDepCore int v deps = .ok r) :
+    r.1.neg2 = v.neg2 ∧ DI r.2.1 ∧ chainOf (r.1, r.2.1) = chainOf (v, deps) := by
+  unfold processIntDepCore at h
+  split at h
+  · simp only [pure, Except.pure, Except.ok.injEq] at h
+    subst h
+    exact moveObjectDep_inv' int v deps deps hd rfl
+  · split at h
+    · split at h
+      · rename_i i hi
+        simp only [pure, Except.pure, Except.ok.injEq] at h
+        subst h
+        have her := erase_first_inv _ deps i (by intro d h1 h2; simp at h1; rw [h1] at h2; cases h2) hd hi
+        refine ⟨rfl, ?_, ?_⟩
+        · show DI ((deps.eraseIdx i).map wosMap)
+          intro d hdm
+          obtain ⟨d0, hd0, rfl⟩ := List.mem_map.mp hdm
+          exact wosMap_ok d0 (her.1 d0 hd0)
+        · show chainOf (_, (deps.eraseIdx i).map wosMap) = _
+          simp only [chainOf]
+          rw [depChain_map _ _ wosMap_vc, her.2]
+      · simp only [pure, Except.pure, Except.ok.injEq] at h
+        subst h
+        exact ⟨rfl, hd, rfl⟩
+    · split at h
+      · simp only [pure, Except.pure, Except.ok.injEq] at h
+        subst h
+        -- the questioned object, then the agent « par … »
+        have ha : DI (match firstIdx (fun (d : Dep) => d.rel = .comp && d.t.isNorPro) deps with
+              | some i => deps.eraseIdx i
+              | none => deps) ∧
+            depChain (match firstIdx (fun (d : Dep) => d.rel = .comp && d.t.isNorPro) deps with
+              | some i => deps.eraseIdx i
+              | none => deps) = depChain deps := by
+          split
+          · rename_i i hi
+            exact erase_first_inv _ deps i (by intro d h1 h2; simp at h1; rw [h1.1] at h2; cases h2) hd hi
+          · exact ⟨hd, rfl⟩
+        simp only []
+        split
+        · rename_i j hj
+          have hb := erase_first_inv _ _ j (by intro d h1 h2; simp at h1; rw [h1.1] at h2; cases h2) ha.1 hj
+          exact moveObjectDep_inv' int v deps _ hb.1 (hb.2.trans ha.2)
+        · exact moveObjectDep_inv' int v deps _ ha.1 ha.2
+      · split at h
+        · split at h
+          · cases h
+          · simp only [pure, Except.pure, Except.ok.injEq] at h
+            subst h
+            simp only []
+            split
+            · rename_i i hi
+              have hb := erase_first_inv _ deps i (by
+                intro d h1 h2
+                simp only [Bool.and_eq_true, Bool.or_eq_true, decide_eq_true_eq] at h1
+                rcases h1.1 with h3 | h3 <;> (rw [h3] at h2; cases h2)) hd hi
+              exact moveObjectDep_inv' int v deps _ hb.1 hb.2
+            · exact moveObjectDep_inv' int v deps deps hd rfl
+        · split at h <;>
+          · simp only [pure, Except.pure, Except.ok.injEq] at h
+            subst h
+            exact ⟨rfl, hd, rfl⟩
+
+/-- **`Dependent.processTypInt`**: the root verb keeps its negation, the dependents stay `DI`, the chain of verbs is
+    unchanged (the verb may become hyphen-linked: the inverted subject pronoun follows it) -/
+theorem processIntDep_inv (int : Str) (v v' : VT) (deps deps' : List Dep) (e : Str) (hd : DI deps)
+    (h : processIntDep int v deps = .ok (v', deps', e)) :
+    v'.neg2 = v.neg2 ∧ DI deps' ∧ chainOf (v', deps') = chainOf (v, deps) := by
+  unfold processIntDep at h
+  obtain ⟨dflt, _, h⟩ := bindE_ok _ _ _ h
+  obtain ⟨r, hr, h⟩ := bindE_ok _ _ _ h
+  obtain ⟨c1, c2, c3⟩ := processIntDepCore_inv int v deps r hd hr
+  simp only [pure, Except.pure, Except.ok.injEq, Prod.mk.injEq] at h
+  obtain ⟨rfl, rfl, _⟩ := h
+  refine ⟨c1, ?_, ?_⟩
+  · split
+    · apply di_cons _ _ (depOk_nonV _ rfl)
+      split
+      · exact di_cons _ _ (depOk_nonV _ rfl) c2
+      · exact di_cons _ _ (depOk_nonV _ rfl) c2
+    · exact di_cons _ _ (depOk_nonV _ rfl) c2
+  · rw [← c3]
+    split
+    · split <;> simp [chainOf, depChain_cons, Dep.vc?]
+    · simp [chainOf, depChain_cons, Dep.vc?]
+
+/-- **what `Dependent.processTyp` hands to the realization**, with or without an interrogative -/
+theorem depTyped_inv_any (sp : Spec) (v : VT) (deps : List Dep) (e : Str) (h : depTyped sp = .ok (v, deps, e)) :
+    v.neg2 = sp.typ.neg.map NegV.word2 ∧ DI deps ∧ (sp.typ.int = none → v.lier = false) := by
+  unfold depTyped at h
+  obtain ⟨s2, h2, h⟩ := bindE_ok _ _ _ h
+  obtain ⟨s3, h3, h⟩ := bindE_ok _ _ _ h
+  obtain ⟨s4, h4, h⟩ := bindE_ok _ _ _ h
+  obtain ⟨e1, e2, e3⟩ := depElems_inv sp
+  have h5 := depStageNeg_inv sp s4 (depStageMod_inv sp s3 s4 (depStageProg_inv sp s2 s3
+    (depStagePas_inv sp _ s2 e1 e2 e3 h2) h3) h4)
+  cases hint : sp.typ.int with
+  | none =>
+    simp only [hint, pure, Except.pure, Except.ok.injEq, Prod.mk.injEq] at h
+    obtain ⟨rfl, rfl, rfl⟩ := h
+    exact ⟨h5.1, h5.2.2, fun _ => h5.2.1⟩
+  | some i =>
+    simp only [hint] at h
+    obtain ⟨c1, c2, _⟩ := processIntDep_inv i _ v _ deps e h5.2.2 h
+    exact ⟨by rw [c1, h5.1], c2, fun hc => by cases hc⟩
+
 end Pyrealb.ClauseFr
